@@ -308,6 +308,23 @@ func uidvKept(before, after string) bool {
 	return true
 }
 
+// boundaryKinds lists, in order, the kind of every counted step boundary of a recorded (fault-free) run.
+func boundaryKinds(ev []event) []string {
+	var out []string
+	for _, e := range ev {
+		switch e.K {
+		case "end-r", "rollback":
+		case "stmt", "stmt-err":
+			out = append(out, "stmt")
+		case "del-err":
+			out = append(out, "del")
+		default:
+			out = append(out, e.K)
+		}
+	}
+	return out
+}
+
 type refRun struct {
 	pfx         string
 	n           int
@@ -441,6 +458,9 @@ func runC07(ctx *common.Ctx) error {
 	if err := w.resurrectScenario(); err != nil {
 		return fmt.Errorf("scenario resurrect: %w", err)
 	}
+	if err := w.recoveryMoveScenario(); err != nil {
+		return fmt.Errorf("scenario recovery move: %w", err)
+	}
 	if err := w.redownloadScenario(); err != nil {
 		return fmt.Errorf("scenario redownload: %w", err)
 	}
@@ -507,10 +527,15 @@ func (w *world) runScenario(si int, sc scenario) error {
 	res.Count("boundaries:" + sc.name + fmt.Sprintf("=%d", ref.n))
 
 	// ---- faults ----
-	for _, mode := range []string{"fail", "kill"} {
+	kinds := boundaryKinds(ref.events)
+	for _, mode := range []string{"fail", "cancel", "kill"} {
 		for k := 0; k < ref.n; k++ {
 			// large batches (thorough tier): the first and last 30 boundaries and every 53rd in between
 			if ref.n > 80 && k >= 30 && k < ref.n-30 && k%53 != 0 {
+				continue
+			}
+			// "cancel": the context of a write transaction is cancelled between its last statement and COMMIT
+			if mode == "cancel" && (k >= len(kinds) || kinds[k] != "commit" || sc.async) {
 				continue
 			}
 			pfx := fmt.Sprintf("%s%d_%d_", strings.ToUpper(mode[:1]), si, k)
@@ -603,6 +628,11 @@ func (w *world) runScenario(si int, sc scenario) error {
 			if len(bad) > 0 {
 				res.Fail("listed-message-not-fetchable | "+canon, strings.Join(bad, "; ")+" | "+detail, nil)
 			}
+			// the acknowledgement must match what the database holds: a command answered OK / an update acknowledged
+			// without error whose effect is not there (transaction rolled back) is a lie about acknowledged state
+			if mode != "kill" && !diedOnError && !sc.async && runErr == nil && verdict == "before" {
+				res.Fail("acknowledged-but-not-applied | "+canon, "the operation was acknowledged as successful but the view is the one before it | "+detail, nil)
+			}
 			if mode == "kill" || diedOnError {
 				lo, err := w.leftovers()
 				if err != nil {
@@ -613,6 +643,9 @@ func (w *world) runScenario(si int, sc scenario) error {
 				}
 			}
 			res.Sample(map[string]string{"case": canon, "verdict": verdict})
+		}
+		if mode == "cancel" {
+			continue
 		}
 		if mode == "fail" {
 			// a clean restart after the injected errors: nothing may be lost, left-overs are removed
